@@ -557,6 +557,8 @@ class TaskScenario(ScenarioData):
             else:
                 # ALAP (backward) scheduling
                 end_date = self.property.get("end", self.scenarioIdx)
+                # Bound derived from successors / on-start predecessors (a milestone sits exactly there)
+                self._alapBound: Optional[datetime] = None
 
                 if not end_date:
                     # No explicit end - derive from:
@@ -619,6 +621,8 @@ class TaskScenario(ScenarioData):
                             latest_end = succ_start
 
                     end_date = latest_end
+                    if latest_end < self.project["end"]:
+                        self._alapBound = latest_end
 
                 if end_date:
                     # For ALAP, start from the last working slot BEFORE the end date
@@ -790,8 +794,13 @@ class TaskScenario(ScenarioData):
                 if end_date:
                     self.property[("start", self.scenarioIdx)] = end_date
                 else:
-                    slot_idx = self.currentSlotIdx if self.currentSlotIdx is not None else 0
-                    date = self.project.idxToDate(slot_idx)
+                    # At the dependency bound (earliest successor start minus gap) when there is
+                    # one - like a forward milestone at its predecessors' end - and not at the
+                    # beginning of the last working slot before it
+                    date = getattr(self, "_alapBound", None)
+                    if date is None:
+                        slot_idx = self.currentSlotIdx if self.currentSlotIdx is not None else 0
+                        date = self.project.idxToDate(slot_idx)
                     self.property[("start", self.scenarioIdx)] = date
                     self.property[("end", self.scenarioIdx)] = date
             return False
